@@ -244,3 +244,17 @@ def pyppmd_faulty(chain, stream: bytes) -> bool:
         return out != stream
     except Exception:
         return True
+
+
+def rooted_in_rejection(e) -> bool:
+    """True when an exception (or the chain of exceptions it replaced, e.g. a second error raised by
+    close() inside a with-block) goes back to py7zr refusing the coder chain."""
+    from py7zr.exceptions import UnsupportedCompressionMethodError
+
+    seen = 0
+    while e is not None and seen < 10:
+        if isinstance(e, (UnsupportedCompressionMethodError, Rejected)):
+            return True
+        e = e.__context__ or e.__cause__
+        seen += 1
+    return False
